@@ -13,7 +13,7 @@ There is no bound on the number of records, the sequence lengths, the wrap width
 capacity, or the schedule.
 -/
 namespace PolyVerif.Props.C13
-open PolyVerif PolyVerif.Fasta PolyVerif.Spec PolyVerif.Chan
+open PolyVerif PolyVerif.Fasta PolyVerif.Spec.FastaSpec PolyVerif.Chan
 
 /-! ### write, then parse -/
 
